@@ -198,6 +198,18 @@ def r_acct(F, V):
                 R.inst(key, bad, "violation", True, where(body))
             else:
                 R.inst(key, "fill_empty + items = 0 + growth_left = bucket_mask_to_capacity(bucket_mask)", "ok", True, where(body))
+        # ---- (l) every store to growth_left has one of the known shapes: -= special_is_empty (a), += 1 (c), a copy / restore,
+        # the whole capacity (j), capacity - items (f/k); anything else is a made-up count of free room
+        for (gi, gk, gs, gshape, gorig) in gl_shapes:
+            calls = _calls_in_origins(gorig)
+            known = gshape[0] in ("dec", "inc", "copy", "const") or (gshape[0] == "binop:Sub") or \
+                (gshape[0] == "other" and any(c.endswith("bucket_mask_to_capacity") for c in calls) and not [o for o in gorig if o[0] == "binop"])
+            if gshape[0] == "inc" and not _is_const_one(gshape[1]):
+                known = False
+            if not known:
+                R.violation("%s|growth_left-shape" % p, body, "growth_left is assigned a value of an unknown shape (%s; e.g. capacity + items): the free-room count no longer equals the number of EMPTY bytes "
+                            "that may still be consumed, so the table can fill completely (probes never terminate) or refuse room it has" % gshape[0], line=line_of(body, stmt=gs))
+                R.inst("%s|growth_left-shape" % p, "growth_left of unknown shape", "violation", True, where(body, stmt=gs))
         # ---- (j) growth_left is reset to the WHOLE capacity only together with a reset of every control byte
         for (gi, gk, gs, gshape, gorig) in gl_shapes:
             calls = _calls_in_origins(gorig)
